@@ -60,7 +60,7 @@ type c15Case struct {
 	BurnVeto       bool       `json:"burn_vote_veto"`
 	BurnPrevote    bool       `json:"burn_proposal_deposit_prevote"`
 	TwoDenoms      bool       `json:"two_denom_min_deposit"` // the minimum deposit also asks for 1000 usdt
-	Delegs         [][3]int64 `json:"delegations"` // user, validator, FX
+	Delegs         [][3]int64 `json:"delegations"`           // user, validator, FX
 	Ops            []c15Op    `json:"ops"`
 }
 
